@@ -170,12 +170,12 @@ Proof.
 Qed.
 
 (* ---- where the tables are *)
-Lemma placed_before top l p e x : mp4_forest_ok f top l p e = true -> e <= off -> In x (mp4_flat l) -> placed off old x.
+Lemma placed_before top l p e x : mp4_forest_ok f top l p e = true -> e <= off -> In x (mp4_flat l) -> placed off old off x.
 Proof.
   intros Hf He Hx. pose proof (forest_within _ _ _ _ _ Hf) as W. rewrite Forall_forall in W. specialize (W x Hx).
   unfold within in W. left. lia.
 Qed.
-Lemma placed_after top l p e x : mp4_forest_ok f top l p e = true -> off + old <= p -> In x (mp4_flat l) -> placed off old x.
+Lemma placed_after top l p e x : mp4_forest_ok f top l p e = true -> off + old <= p -> In x (mp4_flat l) -> placed off old off x.
 Proof.
   intros Hf He Hx. pose proof (forest_within _ _ _ _ _ Hf) as W. rewrite Forall_forall in W. specialize (W x Hx).
   unfold within in W. pose proof old_pos. right. lia.
@@ -203,7 +203,7 @@ Proof.
     apply in_app_or in Hx. destruct Hx as [Hx|Hx]; [apply Hil; exact Hx|eapply Hfr; eauto].
 Qed.
 
-Lemma table_placed x : In x (mp4_flat atoms) -> is_table_name x = true -> placed off old x.
+Lemma table_placed x : In x (mp4_flat atoms) -> is_table_name x = true -> placed off old off x.
 Proof.
   intros Hx Hn. pose proof positions as P.
   destruct top_split as (H1 & H2 & H3). destruct moov_split as (H4 & H5 & H6). destruct udta_split as (H7 & H8 & H9).
@@ -227,7 +227,7 @@ Proof.
   rewrite (region_no_table x Hx) in Hn. discriminate.
 Qed.
 
-Lemma tables_placed : Forall (placed off old) (mp4_stco_list atoms ++ mp4_co64_list atoms ++ mp4_tfhd_list atoms).
+Lemma tables_placed : Forall (placed off old off) (mp4_stco_list atoms ++ mp4_co64_list atoms ++ mp4_tfhd_list atoms).
 Proof.
   apply Forall_forall. intros x Hx. apply in_app_or in Hx. destruct Hx as [Hx|Hx]; [|apply in_app_or in Hx; destruct Hx as [Hx|Hx]].
   - destruct (stco_in atoms x Hx) as (H1 & H2). apply table_placed; [exact H1|]. unfold is_table_name, mp4_named. rewrite H2. reflexivity.
@@ -250,7 +250,7 @@ Hypothesis Hrun2 : mp4_update_offsets atoms (zlen data - old) off f2 = Ok f'.
 
 Definition ex_result :=
   surgery_result f atoms Hwf Htab off old data (proj1 region_fits) (proj1 (proj2 region_fits)) (proj2 (proj2 region_fits))
-    tables_placed ancestors ancestors_ok ancestors_nodup f2 f' Hrun1 Hrun2.
+    off ltac:(lia) tables_placed ancestors ancestors_ok ancestors_nodup f2 f' Hrun1 Hrun2.
 
 (* ================================================================== the tree of the result *)
 Let delta := zlen data - old.
@@ -291,7 +291,7 @@ Proof.
     assert (HsA : s_lo (seg_of An) = ma_off An /\ s_hi (seg_of An) = ma_off An + ma_hdr An + mp4_skip (ma_name An))
       by (unfold seg_of, s_lo, s_hi; rewrite HAk; split; reflexivity).
     unfold clear_of. lia.
-  - intros T HT. pose proof (member_facts f atoms Hwf off old data tables_placed T HT) as (HTin & _ & _ & _ & LT & KT).
+  - intros T HT. pose proof (member_facts f atoms Hwf off old data off tables_placed T HT) as (HTin & _ & _ & _ & LT & KT).
     destruct (segs_disjoint _ _ _ _ _ x T Hwf Hx HTin) as [E|D].
     + subst. unfold clear_of. lia.
     + assert (HsT : s_lo (seg_of T) = ma_off T /\ s_hi (seg_of T) = ma_off T + ma_len T)
@@ -525,7 +525,7 @@ Proof.
     assert (HsL : s_lo (seg_of L) = ma_off L /\ s_hi (seg_of L) = ma_off L + ma_len L)
       by (unfold seg_of, s_lo, s_hi; rewrite KL; split; reflexivity).
     unfold clear_of. lia.
-  - intros T HT. pose proof (member_facts f atoms Hwf off old data tables_placed T HT) as (HTin & _ & _ & _ & LT & KT).
+  - intros T HT. pose proof (member_facts f atoms Hwf off old data off tables_placed T HT) as (HTin & _ & _ & _ & LT & KT).
     assert (Hne : L <> T).
     { intros ->. unfold all_tabs in HT. apply in_app_or in HT. unfold is_table_name, mp4_named in NL.
       destruct HT as [HT|HT]; [destruct (stco_in atoms T HT) as (_ & E); rewrite E in NL; discriminate|].
